@@ -388,6 +388,17 @@ def check_at(path, case):
     if bool(got_conn) != exp_conn:
         raise PropertyViolation("connectivity", "are_connected=%r, graph connected=%r (%d atoms, %s)"
                                 % (got_conn, exp_conn, n, case["graph"]))
+    # the generic copying protocols give the same topology as the method does
+    import copy as _copy
+    import pickle as _pickle
+    for how, fn in (("copy.deepcopy", _copy.deepcopy), ("copy.copy", _copy.copy),
+                    ("pickle", lambda t: _pickle.loads(_pickle.dumps(t)))):
+        if n > 600 and how != "copy.copy":
+            continue                     # (deep recursion of the generic protocols on long chains is not the subject)
+        other = lib(how, fn, top)
+        if [set(a.bonds) for a in other] != [exp_nb[k] for k in range(n)] or [a.name for a in other] != [a[0] for a in exp_atoms]:
+            raise PropertyViolation("copy-equal", "%s(MoleculeTop) does not carry the bond graph / atoms of the original" % how,
+                                    cls="copy-equal:" + how)
     # copy: equal but independent
     cp = lib("copy", top.copy)
     if not (cp == top) or cp is top:
